@@ -223,8 +223,7 @@ func attachComments(comments []*commentBlock, node *AstNode) []*commentBlock {
 	if len(comments) == 0 {
 		return nil
 	}
-	scopeComments := make([]*commentBlock, 0, len(comments))
-	nodeComments := make([]*commentBlock, 0, len(comments))
+	var scopeComments, nodeComments []*commentBlock
 	loc := node.Loc
 	for len(comments) > 0 && comments[0].Loc.Line <= loc.Line {
 		if len(nodeComments) > 0 &&
